@@ -181,6 +181,8 @@ pub struct Host<'a> {
     pub alloc_ok: bool,
     pub samples_left: usize,
     pub verbose: bool,
+    pub class_cache: BTreeMap<String, String>,
+    pub keyed: std::collections::BTreeSet<String>,
 }
 
 impl<'a> Host<'a> {
@@ -193,8 +195,17 @@ impl<'a> Host<'a> {
     }
 
     pub fn ctx(&self, f: &Func, phase: &str, shape: &str) {
-        let c = json!({"call": self.call_no, "dir": f.dir.name(), "func": f.symbol(), "phase": phase, "shape": shape, "world": self.world_tag});
-        let s = c.to_string();
+        // hand-formatted JSON (names and shape classes contain no quotes or backslashes): this runs
+        // several times per call, also under Miri
+        let s = format!(
+            "{{\"call\":{},\"dir\":\"{}\",\"func\":\"{}\",\"phase\":\"{}\",\"shape\":\"{}\",\"world\":\"{}\"}}",
+            self.call_no,
+            f.dir.name(),
+            f.symbol().replace('\\', "/").replace('"', "'"),
+            phase,
+            shape.replace('"', "'"),
+            self.world_tag
+        );
         obs::set_context(&s);
         if phase != "prepare" && phase != "after" {
             eprintln!("CTX {s}");
@@ -206,8 +217,18 @@ impl<'a> Host<'a> {
                "opts": serde_json::from_str::<Value>(self.tables.opts).unwrap_or(Value::Null), "wit": self.tables.wit, "detail": extra})
     }
 
-    /// signature class for the heap-carrying part of a function signature
-    pub fn heap_class(&self, f: &Func) -> String {
+    /// signature class for the heap-carrying part of a function signature (cached per function)
+    pub fn heap_class(&mut self, f: &Func) -> String {
+        let sym = f.symbol();
+        if let Some(c) = self.class_cache.get(&sym) {
+            return c.clone();
+        }
+        let c = self.heap_class_uncached(f);
+        self.class_cache.insert(sym, c.clone());
+        c
+    }
+
+    fn heap_class_uncached(&self, f: &Func) -> String {
         let mut ps: Vec<String> = f.params.iter().filter(|t| self.abi.contains_heap(t)).map(|t| plan::shape_class(&self.abi, t, 0)).collect();
         ps.sort();
         ps.dedup();
@@ -221,7 +242,12 @@ impl<'a> Host<'a> {
 
     /// one of the four C05 equalities
     pub fn judge(&mut self, f: &Func, what: &str, ty: &Type, index: usize, expected: &str, observed: &str) {
-        self.rep.count(&format!("compared_{}_{}", f.dir.name(), what));
+        self.rep.count(match (f.dir, what) {
+            (Dir::Export, "param") => "compared_export_param",
+            (Dir::Export, _) => "compared_export_result",
+            (Dir::Import, "param") => "compared_import_param",
+            (Dir::Import, _) => "compared_import_result",
+        });
         self.rep.count_n("bytes_compared", expected.len() as u64);
         match norm::compare(expected, observed) {
             Cmp::Equal => {}
@@ -467,8 +493,10 @@ impl<'a> Host<'a> {
         let after = alloc::snapshot();
         self.leak_check(f, before, after, false);
         self.sample(f, &sent, scripted.as_deref());
-        let key = format!("export|{}|{}|{}", f.params.iter().map(|t| self.abi.shape_key(t)).collect::<Vec<_>>().join(","), f.result.as_ref().map(|t| self.abi.shape_key(t)).unwrap_or_default(), self.tables.opts);
-        self.rep.distinct(&key);
+        if self.keyed.insert(sym.clone()) {
+            let key = format!("export|{}|{}|{}", f.params.iter().map(|t| self.abi.shape_key(t)).collect::<Vec<_>>().join(","), f.result.as_ref().map(|t| self.abi.shape_key(t)).unwrap_or_default(), self.tables.opts);
+            self.rep.distinct(&key);
+        }
     }
 
     fn sample(&mut self, f: &Func, args: &[String], result: Option<&str>) {
@@ -584,8 +612,10 @@ impl<'a> Host<'a> {
         }
         self.leak_check(f, before, after, false);
         self.sample(f, &scripted, host_result.as_deref());
-        let key = format!("import|{}|{}|{}", f.params.iter().map(|t| self.abi.shape_key(t)).collect::<Vec<_>>().join(","), f.result.as_ref().map(|t| self.abi.shape_key(t)).unwrap_or_default(), self.tables.opts);
-        self.rep.distinct(&key);
+        if self.keyed.insert(link.clone()) {
+            let key = format!("import|{}|{}|{}", f.params.iter().map(|t| self.abi.shape_key(t)).collect::<Vec<_>>().join(","), f.result.as_ref().map(|t| self.abi.shape_key(t)).unwrap_or_default(), self.tables.opts);
+            self.rep.distinct(&key);
+        }
     }
 }
 
@@ -647,10 +677,19 @@ pub fn run(tables: &'static Tables) {
         alloc_ok,
         samples_left: 3,
         verbose: args.get("verbose").is_some(),
+        class_cache: BTreeMap::new(),
+        keyed: Default::default(),
     };
     match mode.as_str() {
         "values" => run_values(&mut host, sets),
-        "resources" => res::run_histories(&mut host, sets, args.u64("ops", 20) as usize),
+        "resources" => {
+            // exported-resource representations travel through an i32: keep them below 4 GiB
+            if !alloc::set_low32(true) {
+                host.rep.inconclusive("no way to keep resource representations below 4 GiB on this platform");
+            }
+            res::run_histories(&mut host, sets, args.u64("ops", 20) as usize);
+            alloc::set_low32(false);
+        }
         other => host.rep.inconclusive(&format!("unknown mode {other}")),
     }
     let unexpected = with_shared(|sh| std::mem::take(&mut sh.unexpected));
@@ -660,11 +699,11 @@ pub fn run(tables: &'static Tables) {
     let (allocs, frees, peak) = alloc::stats();
     host.rep.count_n("guest_heap_allocations", allocs as u64);
     host.rep.count_n("guest_heap_frees", frees as u64);
-    host.rep.extra.insert("guest_heap_peak_bytes".into(), json!(peak));
+    let _ = peak;
     let (handed, written) = with_shared(|sh| (sh.mem.handed, sh.mem.bytes_written));
     host.rep.count_n("host_blocks_handed_to_guest", handed as u64);
     host.rep.count_n("host_bytes_written", written);
-    host.rep.extra.insert("pointer_width".into(), json!(PTR * 8));
+    host.rep.extra.insert("pointer_widths".into(), json!([PTR * 8]));
     let out = args.out();
     let rep = std::mem::take(&mut host.rep);
     drop(host);
